@@ -37,7 +37,13 @@ fn run<S: Src, const N: usize, const K: usize>(s: &mut S) {
     let mut shape = [0u8; N]; let mut lit = [0u32; N]; let mut has_un = [false; N];
     for i in 0..N { shape[i] = s.choice(3); lit[i] = s.u32(); has_un[i] = s.bool(); }
     let mut order = [0usize; K];
-    for i in 0..K { order[i] = s.usize(); s.assume(order[i] < K); for j in 0..i { s.assume(order[i] != order[j]); } }
+    if K <= 3 {
+        for i in 0..K { order[i] = s.usize(); s.assume(order[i] < K); for j in 0..i { s.assume(order[i] != order[j]); } }
+    } else {
+        // native probes (never run under Kani): Fisher-Yates, no rejection
+        let mut rest: Vec<usize> = (0..K).collect();
+        for i in 0..K { let r = s.range_usize(0, rest.len() - 1); order[i] = rest.remove(r); }
+    }
     let nodes: [FlatNode<M>; N] = core::array::from_fn(|i| FlatNode {
         kind: match shape[i] { 0 => FlatNodeKind::Num(M { v: lit[i], id: 2, moved: false }), k => FlatNodeKind::Var(k as usize - 1) },
         unary_op: if has_un[i] { UnaryOp::from_vec(smallvec::smallvec![UnaryFuncWithIdx { f: un as fn(M) -> M, idx: 0 }]) } else { UnaryOp::new() },
@@ -125,4 +131,8 @@ harness!(shape_xlyx, unwind = 8, |s| { shape_case::<S, 4, 3>(s, [1, 0, 2, 1], [2
 harness!(consuming_vs_cloning_2, unwind = 6, |s| { run::<S, 2, 1>(s) });
 harness!(consuming_vs_cloning_3, unwind = 7, |s| { run::<S, 3, 2>(s) });
 
-registry!("c15", consuming_vs_cloning_2, consuming_vs_cloning_3, shape_xxx, shape_xyx, shape_yxyx, shape_xlyx);
+// native-only sampled probes: 5 and 36 nodes (beyond the inline capacities 16 / 32), symbolic shapes
+pub fn consuming_vs_cloning_5<S: Src>(s: &mut S) { run::<S, 5, 4>(s) }
+pub fn consuming_vs_cloning_36<S: Src>(s: &mut S) { run::<S, 36, 35>(s) }
+
+registry!("c15", consuming_vs_cloning_5, consuming_vs_cloning_36, consuming_vs_cloning_2, consuming_vs_cloning_3, shape_xxx, shape_xyx, shape_yxyx, shape_xlyx);
